@@ -165,7 +165,7 @@ def explore(mod, res, rng, tier, known_ids, can_drive, cases):
 			if span is not None:
 				mo = outs[span[0]:span[0] + span[1]]
 				io = mod.impl_lines(case)
-				if any(l == 'skip' or l.startswith('skip ') or ';skip' in l for l in mo):
+				if any('skip' in l.split() or ';skip' in l for l in mo):
 					# the model declares the input outside its domain (a stdlib routine it does not model)
 					res.skipped += 1
 					mo = io
